@@ -17,7 +17,7 @@ use std::ops::Range;
 pub static INFO: PropInfo = PropInfo {
     id: "C06",
     level: "exploration",
-    rule: "one evaluation = one hostile datagram handed to process_packet (client role) or process_packet_from (server role) of a connection that is inside a live simulated session (states: fresh, with honest traffic in flight / partially reassembled / buffered because the application does not drain / after drains / after earlier hostile datagrams), next to a second healthy connection on the same server. Generators: replay of captured valid packets; one field of a decoded valid packet replaced by a boundary value and re-encoded with the crate's encoder; packets built from scratch with every field from boundary sets (sequence, channel id incl. wrong kind / unknown, message id, slice index {0,n-1,n,n+1,huge}, slice count {1,2,3,4369,4370,10^6}, payload length {0,1,1199,1200,1201}, 0..700 ack ranges incl. 0..2^62 and ranges over the live sent window); follow-up slices contradicting an earlier one (other count, other length, index >= count); every truncation; 1-3 bit flips; random strings up to 1400 bytes. Oracle per call: no unwind (catch_unwind) and return within 20 s; status either unchanged or Disconnected with a reason; accounted receive memory of every channel (hook) within [0, max]; live-heap peak during the call <= sum of receive budgets + 1 MB (counting allocator); every 8 datagrams a full tick of all API calls on both connections must not panic; at the end the healthy connection must have obtained every message in order (C01 oracle incl. deadline). Half-way through a victim whose application does not drain gets a BUDGET-EDGE sequence: unreliable messages that leave exactly one slice of the unreliable receive budget free, then a one-slice sliced message whose only slice is 1201..1390 bytes long - its reservation fits, what is accounted on completion must not exceed the budget (or the connection drops). Non-trivial = the datagram was decodable by the crate's decoder (it got past the parser) or disconnected the victim; distinct = distinct (class, outcome, first 24 bytes) fingerprints.",
+    rule: "one evaluation = one hostile datagram handed to process_packet (client role) or process_packet_from (server role) of a connection that is inside a live simulated session (states: fresh, with honest traffic in flight / partially reassembled / buffered because the application does not drain / after drains / after earlier hostile datagrams), next to a second healthy connection on the same server. Generators: replay of captured valid packets; one field of a decoded valid packet replaced by a boundary value and re-encoded with the crate's encoder; packets built from scratch with every field from boundary sets (sequence, channel id incl. wrong kind / unknown, message id, slice index {0,n-1,n,n+1,huge}, slice count {1,2,3,4369,4370,10^6}, payload length {0,1,1199,1200,1201}, 0..700 ack ranges incl. 0..2^62 and ranges over the live sent window); follow-up slices contradicting an earlier one (other count, other length, index >= count); every truncation; 1-3 bit flips; random strings up to 1400 bytes. Oracle per call: no unwind (catch_unwind) and return within 20 s; status either unchanged or Disconnected with a reason; accounted receive memory of every channel (hook) within [0, max]; live-heap peak during the call <= sum of receive budgets + 1 MB (counting allocator); every 8 datagrams a full tick of all API calls on both connections must not panic; at the end the healthy connection must have obtained every message in order (C01 oracle incl. deadline). Half-way through a victim whose application does not drain gets a BUDGET-EDGE sequence: unreliable messages that leave exactly one slice of the unreliable receive budget free, then a one-slice sliced message whose only slice is 1201..1390 bytes long - its reservation fits, what is accounted on completion must not exceed the budget (or the connection drops). Non-trivial = the datagram was decodable by the crate's decoder (it got past the parser) or disconnected the victim; distinct = distinct (class, outcome, first 24 bytes) fingerprints. Slice counts are also drawn from the arithmetic limits of the announced size (usize::MAX/1200 and its neighbours, 2^62-1, 2^61, 2^53, 2^32). A victim that is still connected at the end of the run is left without arrivals for 3.1 s of its clock, drained completely, and must then account nothing on its unreliable channel (a reservation that survives this is budget lost for the rest of the session).",
     assumptions: &["the healthy connection's link is clean so that its deadline is short", "heap bound uses a 1 MB slack for container growth"],
     gates: &[
         ("hostile_calls", 60_000),
